@@ -159,6 +159,8 @@ def make_line(rng, form, section, hour=None):
         line = "%s%s%s:%s%s%s" % (p[0], m, p[1], p[2], v, p[3])
         if "." in line[:line.find(":")]:
             return None
+        if ".." in v and ":" in v:
+            return None        # "a line without a period": a value with a double period *and* a further colon is outside both stated forms
         return line, {"name": m, "unit": "", "value": v, "descr": ""}, (form, _cls(v), tuple(map(_pc, p)))
     u = F.unit(rng)
     extra = {}
